@@ -31,3 +31,12 @@ long vr_futex_wake(int *addr);
 long vr_futex_wait(int *addr, int val, const void *ts);
 #define syscall(nr, addr, op, val, ts, a2, v3) (((op) == FUTEX_WAKE_PRIVATE) ? vr_futex_wake(addr) : vr_futex_wait((addr), (val), (ts)))
 #endif
+/* polling loops of the real .c files: with -DVR_HOOK_PAUSE every ABTD_atomic_pause() written in a .c file becomes the harness
+ * hook vr_pause() (the inline functions of the headers keep the real pause).  abti.h is included here, after the atomic
+ * macros, so that the macro below only affects the code that follows the header. */
+#ifdef VR_HOOK_PAUSE
+#include "abti.h"
+void vr_pause(void);
+#define ABTD_atomic_pause() vr_pause()
+#endif
+
